@@ -261,19 +261,10 @@ impl<'a> Episode<'a> {
             }
         }
         if base != 0 && !crate::HOOKS_ON && o.addr.wrapping_sub(base) != fm.offset {
-            // with the hooks off the buffer is the first and only member of the record type
-            self.finding(
-                report,
-                "C04",
-                "accessor-offset-differs-from-definition",
-                format!(
-                    "variant {} field `{}`: accessor returns record+{}, the definition says {}",
-                    variant,
-                    fm.name,
-                    o.addr.wrapping_sub(base),
-                    fm.offset
-                ),
-            );
+            // Informational only: no property says where inside the record type the buffer
+            // starts; what a disagreement between accessor and constructor does to the values
+            // is what the model comparison sees.
+            report.count("accessor_offsets_that_differ_from_the_definition", 1);
         }
     }
 
